@@ -9,7 +9,9 @@
 EXTENDS Naturals, Sequences
 
 CONSTANTS Sizes,      \* sizes of single writes that are explored
-          MaxWrites
+          MaxWrites,
+          TokChars,   \* token layer: numbers of characters of a string token ...
+          TokWidths   \* ... and UTF-8 bytes per character (1: ASCII, 2: Latin / Greek, 3: CJK, 4: outside the BMP = two UTF-16 code units)
 
 VARIABLES bufLen, total, blocks, finished, writes
 wvars == <<bufLen, total, blocks, finished, writes>>
@@ -23,7 +25,20 @@ Update(n) ==
   /\ total' = total + n
   /\ bufLen' = (bufLen + n) % 64
   /\ blocks' = blocks + ((bufLen + n) \div 64)
-  /\ writes' = Append(writes, n)
+  /\ writes' = Append(writes, [k |-> "raw", c |-> n, w |-> 1])
+  /\ UNCHANGED finished
+
+\* The token layer of the writer (updateTag / updateString / updateNumber): a kind byte (1 tag, 2 string, 3 number), the
+\* length of the UTF-8 encoding as a 32-bit big-endian integer, then the UTF-8 bytes - i.e. three writes of 1, 4 and c * w bytes.
+\* Whatever buffering the implementation uses for the encoding, the stream grows by exactly 5 + c * w bytes.
+TokenBytes(c, w) == 5 + c * w
+Token(k, c, w) ==
+  /\ ~finished
+  /\ Len(writes) < MaxWrites
+  /\ total' = total + TokenBytes(c, w)
+  /\ bufLen' = (bufLen + TokenBytes(c, w)) % 64
+  /\ blocks' = blocks + ((bufLen + TokenBytes(c, w)) \div 64)
+  /\ writes' = Append(writes, [k |-> k, c |-> c, w |-> w])
   /\ UNCHANGED finished
 
 \* digestHex(): append 0x80, pad with zeros to 56 mod 64 (one extra block when bufLen >= 56), 64-bit length
@@ -36,6 +51,10 @@ Digest ==
 
 WNext == (\E n \in Sizes : Update(n)) \/ Digest
 WSpec == WInit /\ [][WNext]_wvars
+\* behaviours of the token layer: string / tag tokens of every explored length and width, then Digest
+TNext == (\E k \in {"tag", "str"}, c \in TokChars, w \in TokWidths : Token(k, c, w)) \/ Digest
+TSpec == WInit /\ [][TNext]_wvars
+AnyNext == WNext \/ TNext
 
 \* ------------------------------------------------------------------ properties
 BufferIsRemainder == ~finished => (bufLen = total % 64 /\ bufLen \in 0..63)
@@ -46,5 +65,5 @@ PaddedLength == finished => blocks * 64 = ((total + 1 + 8 + 63) \div 64) * 64
 LengthBits(t) == t * 8
 WriterOK == BufferIsRemainder /\ BlocksBeforeDigest /\ PaddedLength
 \* nothing is enabled after Digest (the implementation throws)
-DeadAfterDigest == finished => ~ENABLED WNext
+DeadAfterDigest == finished => ~ENABLED AnyNext
 =============================================================================
